@@ -17,7 +17,11 @@ RULE = ("case = (closed-shell library molecule with reference gap >= 2 eV, rando
         "when the reference converged, is eligible and at least one converged candidate was compared; distinct by "
         "SHA-1 of the case")
 ASSUMPTIONS = ["float64 CPU", "near-equilibrium closed-shell molecules with HOMO-LUMO gap >= 2 eV measured on the reference run",
-               "reference = Pulay+diag at scf_eps 1e-11 (its own error <= 1e-10 is inside every bound used)",
+               "reference = Pulay+diag at scf_eps 1e-11, cold start (its own error <= 1e-10 is inside every bound used), cross-checked "
+               "against a second independent path (fixed mixing 0.3, eps 1e-11, cold); when the two end on different SCF states the "
+               "lower one is the reference and the event is judged by a stability analysis",
+               "'single stable closed-shell solution' is decided by the lowest eigenvalue of the singlet stability matrix A+B built from "
+               "the independent reference model (MNDO/AM1/PM3) or, for PM6_SP, by restarting a damped SCF 0.01 away from the state",
                "candidates the API flags not converged are counted, not compared",
                "KSA driven at T_el = 100 K (occupation smearing exp(-gap/2kT) < 1e-50)"]
 REQUIRED_MONITORS = ["candidates_compared", "sp2_candidates_compared", "uhf_candidates_compared",
@@ -39,7 +43,7 @@ POOL = ["H2O", "NH3", "CH4", "HF", "CO", "HCN", "CH2O", "N2", "C2H2", "CO2", "CH
 METHODS = ["AM1", "PM3", "MNDO", "PM6_SP"]
 PH3_WITNESS = {"Z": [15, 1, 1, 1], "X": [[0.0807, 0.0324, 0.0499], [1.3413, -0.0732, -0.7826], [-0.6767, 0.9427, -0.7632],
                                           [-0.5061, -1.0650, -0.7599]]}
-DISTINCT_E = 1.0e-3   # eV: a converged result this far (and > 100 x its bound) from the reference is another SCF solution
+DISTINCT_E = 1.0e-4   # eV: a converged result this far (and > 100 x its bound) from the reference is another SCF solution
 
 
 def _conv_tag(conv):
@@ -117,18 +121,24 @@ def gen_cases(tier, seed):
 
 
 # ------------------------------------------------------------------------------------------------------
-def _bounds(c, rho=0.0, width=0.0):
-    """bounds K * eps_eff * A.  A = max(1/(1-alpha), 1/(1-rho)): a linearly convergent iteration stopped on
-    |dP| <= 15 eps is still rho/(1-rho) * 15 eps away from its limit; for fixed mixing rho = alpha + (1-alpha)*lambda,
-    so 1/(1-rho) = [1/(1-alpha)] / (1-lambda) -- rho is *measured* on the candidate's own iteration log.
-    SP2 energies: occupation errors sum to <= 2*tol and enter the energy in first order, weighted by at most the
-    spectral width W of the orbital energies -> extra 2 * tol * W."""
+def _bounds(c, rho=0.0, width=0.0, lam=0.0):
+    """bounds K * eps_eff * A.
+    A = max(1/(1-alpha), 1/(1-rho)): a linearly convergent iteration stopped on |dP| <= 15 eps is still
+    rho/(1-rho) * 15 eps away from its limit; for fixed mixing rho = alpha + (1-alpha)*lambda, so
+    1/(1-rho) = [1/(1-alpha)] / (1-lambda) -- rho is *measured* on the candidate's own iteration log.
+    KSA stops on the residual r = D(F[P]) - P (|r| <= 15 eps); the error is (1-J)^-1 r, i.e. amplified by 1/(1-lambda)
+    along the slowest SCF mode; lambda is measured independently on the reference's damped run (rho_ref = 0.3 + 0.7 lambda).
+    SP2 energies: SP2 stops when |tr X - n_occ| < tol on two successive steps, which bounds the summed occupation
+    errors of occupied and virtual levels by <= 4 tol; they enter the energy in first order (x2 electrons), each weighted
+    by at most the spectral width W of the orbital energies -> extra 8 * tol * W."""
     from vlib import scfmon
     alpha = float(c["conv"][1]) if c["conv"][0] == 0 else 0.0
     A = max(1.0 / (1.0 - alpha), 1.0 / (1.0 - rho))
+    if c["conv"][0] == 3:
+        A = max(A, 1.0 / (1.0 - lam))
     s2 = scfmon.sp2_eff(c.get("sp2"))
     ee = max(float(c["eps"]), s2)
-    return ee, A, {"E": ABS_E + K_E * ee * A + 2.0 * s2 * width, "F": ABS_F + K_F * ee * A, "q": ABS_Q + K_Q * ee * A,
+    return ee, A, {"E": ABS_E + K_E * ee * A + 8.0 * s2 * width, "F": ABS_F + K_F * ee * A, "q": ABS_Q + K_Q * ee * A,
                    "emo": ABS_EMO + K_EMO * ee * A}
 
 
@@ -174,6 +184,7 @@ def run_case(case):
     viol, margins, cells = [], {}, []
     refs = {}
 
+    state = {}
     ref_mix = {"conv": [0, 0.3], "eps": 1e-11, "sp2": None, "uhf": False, "start": "cold"}
     ref_pul = {"conv": [2], "eps": 1e-11, "sp2": None, "uhf": False, "start": "cold"}
     pending = []   # distinct-solution events found while building references: (cand, out_high, out_low, where)
@@ -185,8 +196,15 @@ def run_case(case):
         if k in refs:
             return refs[k]
         Xk = Xd + k * delta
-        rp = run.single_point(Z, Xk, ref_sett, charges=q, mult=m)
-        rm = run.single_point(Z, Xk, run.settings(method, eps=1e-11, converger=(0, 0.3)), charges=q, mult=m)
+        rp = run.single_point(Z, Xk, ref_sett, charges=q, mult=m, keep=True)
+        el = scfmon.ErrorLog(1e-11)
+        try:
+            el.install()
+            rm = run.single_point(Z, Xk, run.settings(method, eps=1e-11, converger=(0, 0.3)), charges=q, mult=m, keep=True)
+        finally:
+            el.uninstall()
+        if k == 0:
+            state["lam"] = float(min(max((el.contraction() - 0.3) / 0.7, 0.0), 0.98))
         mon["reference_runs"] += 2
         okp, okm = not bool(np.any(rp["notconverged"])), not bool(np.any(rm["notconverged"]))
         if okp and okm and abs(float(rp["Etot"][0]) - float(rm["Etot"][0])) <= DISTINCT_E:
@@ -195,7 +213,7 @@ def run_case(case):
         elif okp and okm:
             mon["reference_paths_disagree"] += 1
             hi, lo, chi = (rp, rm, ref_pul) if rp["Etot"][0] > rm["Etot"][0] else (rm, rp, ref_mix)
-            warm = run.single_point(Z, Xk, ref_sett, charges=q, mult=m, P0=np.array(lo["dm"], copy=True))
+            warm = run.single_point(Z, Xk, ref_sett, charges=q, mult=m, P0=np.array(lo["dm"], copy=True), keep=True)
             mon["reference_runs"] += 1
             if not bool(np.any(warm["notconverged"])) and abs(float(warm["Etot"][0]) - float(lo["Etot"][0])) <= 1e-6:
                 lo = warm
@@ -235,7 +253,6 @@ def run_case(case):
         return r > 1.0
 
     ksa_log = {}
-    state = {}
     em0 = np.asarray(ref0["e_mo"][0])[:norb]
     width = float(em0.max() - em0.min())
 
@@ -265,7 +282,7 @@ def run_case(case):
             elog.install()
             lw.install()
             try:
-                return run.single_point(Z, Xc, sett, charges=q, mult=m, P0=P0), None
+                return run.single_point(Z, Xc, sett, charges=q, mult=m, P0=P0, keep=True), None
             except scfmon.FailPoint:
                 mon["failpoints_fired"] += 1
                 return None, "failpoint (termination is C03's domain)"
@@ -304,27 +321,56 @@ def run_case(case):
             return "undecided", {"how": "damped SCF restarted 0.01 away from the solution stayed"}
         return "undecided", {"how": "unrestricted solution: no stability analysis available"}
 
+    def clause_a(out, eps_c, alpha_c, s2):
+        """C03 clause (A) on a returned closed-shell/UHF density (repository Fock rebuilt from it): is it self-consistent
+        within the C03 bounds?  -> (bool | None, residuals)"""
+        try:
+            Pt = out["_mol"].dm.detach()
+            Fk, Hk = scfmon.rebuild_fock(out["_mol"], Pt)
+            nel = int(sum(gen.VALENCE[z] for z in Z) - q)
+            r = scfmon.residuals(Z, Pt.numpy()[0], Fk[0], Hk[0], nel, nel // 2, nel - nel // 2, float(out["Eelec"][0]), out["q"][0], q)
+        except Exception as exc:
+            return None, {"error": repr(exc)}
+        ee = max(eps_c, s2)
+        A_ = 1.0 / (1.0 - alpha_c)
+        su = 5.0 if Pt.dim() == 4 else 1.0
+        gf = max(1.0, 1.0 / max(r["gap"] or 1.0, 1e-3))
+        ok = (r["idempotency"] <= 1e-12 + 50.0 * ee * A_ and r["commutator"] <= 1e-10 + 5e3 * ee * A_ * su
+              and r["reproduction"] <= 1e-10 + 300.0 * ee * A_ * su * gf and r["trace"] <= 1e-6 + 10.0 * s2)
+        return bool(ok), {k: r[k] for k in ("idempotency", "commutator", "reproduction", "trace", "gap")}
+
     def distinct(c, out, ref, where):
-        """a converged result that is a different SCF solution than the reference: violation iff the higher of the
-        two is a saddle point while the lower is a minimum (the molecule then has ONE stable closed-shell solution
-        among those reached, and a solver path left it); two minima => outside the property's precondition."""
+        """a converged result that is a different SCF state than the reference (|dE| > 1e-4 eV and > 100 x bound).
+        (i) it does not even satisfy C03's clause (A)  -> `converged-result-not-selfconsistent`;
+        (ii) it is a genuine self-consistent stationary point: violation iff the higher of the two states is a saddle
+        point while the lower is a minimum (the molecule then has ONE stable closed-shell solution and a solver path
+        left it); two minima => outside the property's premise (counted, not judged)."""
         Xk = Xd + where * delta
         mon["distinct_solutions_judged"] += 1
+        alpha_c = float(c["conv"][1]) if c["conv"][0] == 0 else 0.0
+        sc_out, res_out = clause_a(out, float(c["eps"]), alpha_c, scfmon.sp2_eff(c.get("sp2")))
+        sc_ref, res_ref = clause_a(ref, 1e-11, 0.0, 0.0)
         hi_is_out = float(out["Etot"][0]) > float(ref["Etot"][0])
         hi, lo = (out, ref) if hi_is_out else (ref, out)
-        s_hi, i_hi = stability(hi, Xk)
-        s_lo, i_lo = stability(lo, Xk)
         info = {"candidate": c, "where": where, "E_candidate": float(out["Etot"][0]), "E_reference": float(ref["Etot"][0]),
                 "gap_candidate": float(np.asarray(out["gap"]).reshape(-1)[0]), "gap_reference": float(np.asarray(ref["gap"]).reshape(-1)[0]),
-                "higher_solution": dict(i_hi, verdict=s_hi), "lower_solution": dict(i_lo, verdict=s_lo),
-                "species": Z, "coords": Xk.tolist(), "charge": q}
-        if s_hi == "unstable" and s_lo == "stable" or (s_hi == "unstable" and s_lo == "undecided" and i_lo.get("how", "").startswith("damped")):
+                "candidate_selfconsistent(C03 clause A)": sc_out, "candidate_residuals": res_out,
+                "reference_selfconsistent(C03 clause A)": sc_ref, "species": Z, "coords": Xk.tolist(), "charge": q}
+        pulay = c["conv"][0] == 2
+        if sc_out is False:
+            viol.append({"clause": "converged-result-not-selfconsistent",
+                         "mech": "pulay-converged-flag-on-non-selfconsistent-density" if pulay else None, "detail": info})
+            return info
+        s_hi, i_hi = stability(hi, Xk)
+        s_lo, i_lo = stability(lo, Xk)
+        info["higher_solution"] = dict(i_hi, verdict=s_hi)
+        info["lower_solution"] = dict(i_lo, verdict=s_lo)
+        if s_hi == "unstable" and (s_lo == "stable" or (s_lo == "undecided" and i_lo.get("how", "").startswith("damped"))):
             if hi_is_out:
-                # DIIS extrapolation started from the cold guess (no damped/adaptive steps first) -- with either projector
-                mech = "pulay-cold-start-converges-to-saddle" if (c["conv"][0] == 2 and c["start"] == "cold") else None
-                viol.append({"clause": "converged-to-unstable-scf-solution", "mech": mech, "detail": info})
+                # Pulay cell AND self-consistent (clause A holds) AND another energy: DIIS finds stationary points, not minima
+                viol.append({"clause": "converged-to-unstable-scf-solution",
+                             "mech": "pulay-lands-on-other-scf-stationary-point" if (pulay and sc_out) else None, "detail": info})
             else:
-                # the reference itself sits on the saddle (both reference paths did): report it against the reference solver
                 viol.append({"clause": "reference-on-unstable-scf-solution", "mech": None, "detail": info})
         elif s_hi == "stable" and s_lo == "stable":
             mon["distinct_solutions_both_stable"] += 1
@@ -334,7 +380,7 @@ def run_case(case):
 
     def judge(c, out, ref, where, errs_store=None):
         rho = state["elog"].contraction() if state.get("elog") is not None else 0.0
-        ee, A, B = _bounds(c, rho, width)
+        ee, A, B = _bounds(c, rho, width, state.get("lam", 0.0))
         err_rho = rho
         tag = _conv_tag(c["conv"])
         if bool(np.any(out["notconverged"])):
@@ -349,7 +395,7 @@ def run_case(case):
                                     "charge": q, "Etot": repr(out["Etot"])}})
             return None
         err = _errors(out, ref, norb)
-        _, _, B0 = _bounds(c, 0.98, width)
+        _, _, B0 = _bounds(c, 0.98, width, 0.98)
         if err["E"] > max(DISTINCT_E, 100.0 * B0["E"]):
             distinct(c, out, ref, where)
             return None
@@ -419,7 +465,7 @@ def run_case(case):
                 e1, e2 = es[i], es[j]
                 err1, _ = d[e1]
                 err2, c2 = d[e2]
-                _, _, B2 = _bounds(c2, err2.get("_rho", 0.0), width)
+                _, _, B2 = _bounds(c2, err2.get("_rho", 0.0), width, state.get("lam", 0.0))
                 mon["monotonicity_pairs"] += 1
                 for k in ("E", "F", "q", "emo"):
                     lim = max(err1[k], B2[k])
@@ -430,5 +476,5 @@ def run_case(case):
                                                 "err_tight": err2[k], "bound_tight": B2[k], "species": Z,
                                                 "coords": Xd.tolist()}})
     return {"nontrivial": mon["candidates_compared"] > 0, "violations": viol, "margins": margins, "monitors": mon,
-            "cells": cells, "obs": {"gap": gap, "Etot_ref": float(ref0["Etot"][0]), "n_candidates": len(case["cands"]),
+            "cells": cells, "obs": {"gap": gap, "lambda_slowest_scf_mode": state.get("lam"), "Etot_ref": float(ref0["Etot"][0]), "n_candidates": len(case["cands"]),
                                     "compared": mon["candidates_compared"], "worst": margins}}
